@@ -72,6 +72,7 @@ func fontKinds() []fontKind {
 		s := s
 		out = append(out, fontKind{Label: "sample/" + s.Label, Simple: !s.Composite, Make: func() (font.Layouter, error) { return s.MakeFont(), nil }})
 	}
+	out = append(out, fontKind{Label: "type3/notdef-width", Simple: true, Make: type3NotdefWidth})
 	// composite fonts with the UTF-8 encoder instead of the fixed Identity-H CMap
 	for _, g := range gofont.All {
 		g := g
@@ -279,6 +280,11 @@ type docCase struct {
 	// a text starting with an odd / even code point (the allocator scores
 	// candidate codes by the low bits of rune XOR code); 0 = whatever comes
 	LastParity int `json:"lastparity"`
+	// EdgeWidth: the first font only gets glyphs whose width is the font's default
+	// width (what an unused code has; /MissingWidth in the file): the used codes at
+	// both ends of /FirstChar../LastChar then are the ones a writer leaves out of
+	// /Widths
+	EdgeWidth bool `json:"edgewidth"`
 }
 
 func runes(s string) []int {
@@ -351,9 +357,24 @@ func execute(dc *docCase, kinds map[string]fontKind) (rec record, herr error) {
 	offered := map[string]bool{}
 	nOffered := make([]int, len(fonts))
 	order := make([][]pair, len(fonts))
+	var w0 int
+	var gw map[int]int
+	if dc.EdgeWidth {
+		var err error
+		w0, gw, err = glyphWidths(fkinds[0], pools[0])
+		if err != nil {
+			return rec, err
+		}
+	}
 	isSpace := func(f, slot int) bool {
-		t := pools[f][(slot-1)%len(pools[f])].Text
-		return t == " " || t == "\u00a0"
+		p := pools[f][(slot-1)%len(pools[f])]
+		if dc.EdgeWidth && f == 0 && gw[p.GID] != w0 {
+			return true // not space, but filtered the same way
+		}
+		if !dc.NoSpace {
+			return false
+		}
+		return p.Text == " " || p.Text == "\u00a0"
 	}
 	bind := func(f int, it item) pair {
 		p := pools[f][(it.Slot-1)%len(pools[f])]
@@ -382,6 +403,9 @@ func execute(dc *docCase, kinds map[string]fontKind) (rec record, herr error) {
 	}
 	nShow := 0
 	show := func(f int, ps []pair, rises, kern int) {
+		if len(ps) == 0 {
+			return // nothing to show: the font is not even selected
+		}
 		if cur != f {
 			doc.TextSetFont(fonts[f], 10)
 			cur = f
@@ -445,7 +469,7 @@ func execute(dc *docCase, kinds map[string]fontKind) (rec record, herr error) {
 		}
 		var ps []pair
 		for _, it := range st.Items {
-			if dc.NoSpace && f == 0 && isSpace(f, it.Slot) {
+			if f == 0 && isSpace(f, it.Slot) {
 				continue
 			}
 			ps = append(ps, bind(f, it))
@@ -458,7 +482,7 @@ func execute(dc *docCase, kinds map[string]fontKind) (rec record, herr error) {
 			}
 			for tv := 1; tv <= nTexts && nOffered[f] < rec.Fonts[f].Cap; tv++ {
 				for slot := 1; slot <= len(pools[f]) && nOffered[f] < rec.Fonts[f].Cap; slot++ {
-					if dc.NoSpace && f == 0 && isSpace(f, slot) {
+					if f == 0 && isSpace(f, slot) {
 						continue
 					}
 					p := bind(f, item{Slot: slot, TV: tv})
@@ -677,6 +701,46 @@ func execute(dc *docCase, kinds map[string]fontKind) (rec record, herr error) {
 	return rec, nil
 }
 
+var widthCache sync.Map // label -> *widthInfo
+
+type widthInfo struct {
+	w0 int
+	gw map[int]int
+}
+
+// glyphWidths learns, on scratch instances of the font (Encode allocates codes),
+// the width of a code nothing is allocated to and the width of every pool glyph
+// (1e-6 text space units).
+func glyphWidths(k fontKind, pool []pair) (int, map[int]int, error) {
+	if v, ok := widthCache.Load(k.Label); ok {
+		wi := v.(*widthInfo)
+		return wi.w0, wi.gw, nil
+	}
+	wi := &widthInfo{gw: map[int]int{}}
+	var F font.Layouter
+	used := 0
+	for _, p := range pool {
+		if _, ok := wi.gw[p.GID]; ok {
+			continue
+		}
+		if F == nil || used >= 200 {
+			var err error
+			F, err = k.Make()
+			if err != nil {
+				return 0, nil, fmt.Errorf("harness: cannot make font %s: %v", k.Label, err)
+			}
+			used = 0
+			for info := range F.Codes(pdf.String{0}) {
+				wi.w0 = micro(info.Width)
+			}
+		}
+		used++
+		wi.gw[p.GID] = micro(advanceOf(F, p) / 10)
+	}
+	widthCache.Store(k.Label, wi)
+	return wi.w0, wi.gw, nil
+}
+
 // advanceOf is the font's own width for the glyph, scaled to 10pt.
 func advanceOf(F font.Layouter, p pair) float64 {
 	code, ok := F.Encode(glyphID(p.GID), p.Text)
@@ -757,9 +821,9 @@ func run(ctx *core.Ctx) error {
 	var docs []*docCase
 	type want struct{ walks, sweeps []*docCase }
 	perNF := map[int]*want{2: {}, 3: {}, 4: {}}
-	newDoc := func(primary fontKind, sweep, overflow, noSpace bool, parity int) {
+	newDocV := func(primary fontKind, sweep, overflow, noSpace bool, parity int, edge bool, vi int) {
 		nf := 2 + rd.Intn(3)
-		dc := &docCase{Pretty: rd.Intn(2) == 0, Overflow: overflow, NoSpace: noSpace, LastParity: parity}
+		dc := &docCase{Pretty: rd.Intn(2) == 0, Overflow: overflow, NoSpace: noSpace, LastParity: parity, EdgeWidth: edge}
 		dc.Fonts = append(dc.Fonts, primary.Label)
 		for len(dc.Fonts) < nf {
 			dc.Fonts = append(dc.Fonts, kinds[rd.Intn(len(kinds))].Label)
@@ -772,12 +836,18 @@ func run(ctx *core.Ctx) error {
 			lo = max(lo, minVer[l])
 		}
 		dc.Version = versionNames[lo+rd.Intn(len(versionNames)-lo)]
+		if vi >= lo {
+			dc.Version = versionNames[vi]
+		}
 		if sweep {
 			perNF[nf].sweeps = append(perNF[nf].sweeps, dc)
 		} else {
 			perNF[nf].walks = append(perNF[nf].walks, dc)
 		}
 		docs = append(docs, dc)
+	}
+	newDoc := func(primary fontKind, sweep, overflow, noSpace bool, parity int) {
+		newDocV(primary, sweep, overflow, noSpace, parity, false, -1)
 	}
 	var simpleKinds []fontKind
 	for _, k := range kinds {
@@ -795,6 +865,16 @@ func run(ctx *core.Ctx) error {
 			// a simple font's own documents: filled to 256 codes with the space glyph
 			// (last pair odd / even in turn) and without it (code 32 is left for the
 			// last pair: odd first, even in the next round); random walks in between
+			// the font used with glyphs of its default width only (the edges of /Widths);
+			// the Type 3 font with a wide .notdef in every PDF version
+			if k.Label == "type3/notdef-width" {
+				for vi := range versionNames {
+					newDocV(k, true, false, false, 0, true, vi)
+					newDocV(k, false, false, false, 0, false, vi)
+				}
+			} else if round%2 == 0 {
+				newDocV(k, true, false, false, 0, true, -1)
+			}
 			switch round % 2 {
 			case 0:
 				newDoc(k, true, false, false, 1+(ki+round/2)%2)
@@ -830,6 +910,9 @@ func run(ctx *core.Ctx) error {
 			}
 			if d.NoSpace {
 				kind += "-nospace"
+			}
+			if d.EdgeWidth {
+				kind += "-edgewidth"
 			}
 			if d.LastParity != 0 {
 				kind += []string{"", "-lastodd", "-lasteven"}[d.LastParity]
